@@ -203,6 +203,15 @@ def fix_voidparam(toks):
     return out
 
 
+def undeclared_tag(toks, declared):
+    for i, x in enumerate(toks[:-1]):
+        if x in ('struct', 'union', 'enum'):
+            y = toks[i + 1]
+            if (y[0].isalpha() or y[0] == '_') and (x, y) not in declared:
+                return True
+    return False
+
+
 def child_case(st, case):
     import importlib
     from cffi import FFI
@@ -228,6 +237,9 @@ def child_case(st, case):
         g = TS.TGen(rnd, **names_of(c))
         g0 = TS.TGen(rnd)
         tdn = typedef_names(c)
+        nm = names_of(c)
+        decl_tags = set([('struct', x) for x in nm['structs']] + [('union', x) for x in nm['unions']]
+                        + [('enum', x) for x in nm['enums']])
         rep.stat('contexts')
         for i in range(case['nstr']):
             bare = rnd.random() < 0.15
@@ -237,6 +249,9 @@ def child_case(st, case):
             if mutated:
                 s, toks = gg.mutate(toks)
             detail = [seed, s]
+            if undeclared_tag(toks, decl_tags):
+                rep.stat('skipped_undeclared_tag')      # outside the stated grammar
+                continue
             try:
                 t1 = ffi1.typeof(s)
                 r1 = None
